@@ -31,6 +31,10 @@ CONSTANTS
   SwShareGroups,      \* F17: the merged precondition list of a subclass holds the base's group list objects themselves
   SwRecollapse,       \* F24: a class re-created from the dictionary of an existing class (dataclass(slots=True), attrs)
                       \*      inherits the contracts of the bases a second time
+  SwCloneAdoptsInherited, \* F25: in a re-created class the wrappers of INHERITED members (bound in the dictionary of the
+                      \*      original because of its invariants) are taken for definitions of the new class: they inherit
+                      \*      from all bases (also from those that come later in the MRO) and their lists are re-bound on
+                      \*      the function object of the base
   SwShadow            \* F18b: a wrapper bound in a class dictionary shadows, for subclasses with several bases,
                       \*       definitions that come later in the method resolution order
 
@@ -165,7 +169,8 @@ Members ==
                 THEN \* the namespace is the dictionary of the existing class: the very same function objects, also the
                      \* wrappers of inherited members that were bound in it (they are "own" definitions now)
                      [fh |-> fo, lh |-> lst, err |-> "ok",
-                      ns |-> [x \in DOMAIN cl[CloneOf].d |-> [cl[CloneOf].d[x] EXCEPT !.rb = FALSE]]]
+                      ns |-> [x \in DOMAIN cl[CloneOf].d |->
+                                IF SwCloneAdoptsInherited THEN [cl[CloneOf].d[x] EXCEPT !.rb = FALSE] ELSE cl[CloneOf].d[x]]]
                 ELSE BuildMembers(fo, lst, EmptyNs, 1) IN
      /\ fo' = r.fh /\ lst' = r.lh
      /\ IF r.err = "ok"
@@ -252,6 +257,8 @@ SeqOfSet(S) == IF S = {} THEN <<>> ELSE LET x == CHOOSE y \in S : TRUE IN <<x>> 
 RECURSIVE MetaMembersOf(_, _, _, _, _)
 MetaMembersOf(fh, lh, nsp, names, i) ==
   IF i > Len(names) THEN [fh |-> fh, lh |-> lh, ns |-> nsp, err |-> "ok"]
+  ELSE IF nsp[names[i]].kind # "none" /\ nsp[names[i]].rb
+         THEN MetaMembersOf(fh, lh, nsp, names, i + 1)     \* an inherited member stays what it is
   ELSE LET r == MetaMember(fh, lh, nsp, names[i]) IN
        IF r.err # "ok" THEN r ELSE MetaMembersOf(r.fh, r.lh, r.ns, names, i + 1)
 MetaMembers(fh, lh, nsp, i) ==
